@@ -468,6 +468,7 @@ impl THistory {
     }
 
     fn server_call(&mut self, code: u64, v: &[Tree], u: &dyn Fn(usize) -> Option<u64>) {
+        let mut session_ids: Option<Vec<u64>> = None;
         let (t, rs) = match self.server.as_mut() {
             Some(x) => x,
             None => {
@@ -521,6 +522,9 @@ impl THistory {
                     let cur = *self.ev_state.get(&id).unwrap_or(&false);
                     if is_conn == cur {
                         self.violate("C20", format!("events for client {} do not alternate (two {} in a row)", id, if is_conn { "connects" } else { "disconnects" }));
+                        if is_conn {
+                            self.violate("C11", format!("two sessions are connected under client id {}: what is sent to that id reaches one of them only, and what either of them sends is obtained under the same id", id));
+                        }
                     }
                     self.ev_state.insert(id, is_conn);
                     if is_conn {
@@ -551,6 +555,7 @@ impl THistory {
                 l(vec![])
             }
             227 => {
+                session_ids = Some(t.verif_netcode_server().clients_id());
                 let mut a = rs.clients_id();
                 a.sort_unstable();
                 let mut d = rs.disconnections_id();
@@ -563,6 +568,7 @@ impl THistory {
             }
             233 => {
                 let ids = t.verif_netcode_server().clients_id();
+                session_ids = Some(ids.clone());
                 l(vec![
                     nu(t.connected_clients()),
                     nu(t.max_clients()),
@@ -576,9 +582,23 @@ impl THistory {
             }
         };
         self.record(Tree::L(v.to_vec()), obs);
+        if let Some(ids) = session_ids {
+            self.check_one_session_per_id(ids);
+        }
         if code == 224 {
             let (id, ch) = (u(1).unwrap_or(0), u(2).unwrap_or(0) as u8);
             self.check_server_got(id, ch);
+        }
+    }
+
+    /// the netcode layer holds at most one session per client id: the message layer above has one connection per id
+    fn check_one_session_per_id(&mut self, mut ids: Vec<u64>) {
+        ids.sort_unstable();
+        if let Some(w) = ids.windows(2).find(|w| w[0] == w[1]) {
+            let id = w[0];
+            for prop in ["C11", "C20", "C05"] {
+                self.violate(prop, format!("two netcode sessions are connected under client id {}: the message layer has one connection for both, what is sent to that id reaches one of them only and what either sends is obtained under the same id", id));
+            }
         }
     }
 
